@@ -23,12 +23,17 @@ def extra_spelling_probe(eng, tier, seed):
         ("p2", "felines", "7001.Lion.1.2.dsdl"): ("animals.felines.Lion", (1, 2), 7001),
         ("p1", "animals", "Boxer.0.3.dsdl"): ("animals.animals.Boxer", (0, 3), None),  # component repeating the root's name
     }
+    # a sibling root namespace whose directory name is a string prefix of the other root's ("ani" / "animals"), listed first
+    prefix_root_file = ("p1", "ani", "cats", "Cat.1.0.dsdl", "ani.cats.Cat")
     try:
         for (tree, sub, base) in files:
             d = top / tree / "animals" / sub
             d.mkdir(parents=True, exist_ok=True)
             (d / base).write_text("uint8 x\n@sealed\n")
         (top / "p2" / "animals").mkdir(parents=True, exist_ok=True)
+        pd = top / prefix_root_file[0] / prefix_root_file[1] / prefix_root_file[2]
+        pd.mkdir(parents=True, exist_ok=True)
+        (pd / prefix_root_file[3]).write_text("uint8 x\n@sealed\n")
         os.symlink(top / "p1", top / "link1", target_is_directory=True)
         os.chdir(top)
         trees = {"p1": {"abs": top / "p1" / "animals", "rel": Path("p1/animals"), "link": top / "link1" / "animals"},
@@ -47,6 +52,9 @@ def extra_spelling_probe(eng, tier, seed):
             roots = [trees["p1"][root_sp], trees["p2"][root_sp]]
             if rev:
                 roots.reverse()
+            # the prefix-named sibling root comes first, spelled like the others
+            ani = {"abs": top / "p1" / "ani", "rel": Path("p1/ani"), "link": top / "link1" / "ani"}[root_sp]
+            roots = [ani] + roots
             order = keys[:]
             rng.shuffle(order)
             targets = []
